@@ -36,6 +36,9 @@ type RevalidationContext struct {
 	Freshness  *Freshness
 	Refs       ResponseRefs
 	RefIndex   int
+	// MustValidate reports that the stored response may not be used without
+	// successful validation (no-cache, must-revalidate), not even on error.
+	MustValidate bool
 }
 
 func (r RevalidationContext) ToMisc(ccResp CCResponseDirectives) MiscFunc {
@@ -86,23 +89,18 @@ func (r *validationResponseHandler) HandleValidationResponse(
 		return ctx.Stored.Data, nil
 	}
 
-	var (
-		ccResp     CCResponseDirectives
-		ccRespOnce bool
-	)
-	if (err != nil || isStaleErrorAllowed(resp.StatusCode)) && req.Method == http.MethodGet {
-		ccResp = ParseCCResponseDirectives(resp.Header)
-		ccRespOnce = true
-		if r.siep.CanStaleOnError(ctx.Freshness, ccResp) {
+	if (err != nil || isStaleErrorAllowed(resp.StatusCode)) && req.Method == http.MethodGet &&
+		!ctx.MustValidate {
+		// RFC 5861 §4: stale-if-error applies when it is present on the stored
+		// response or on the request; the failed reply (if any) has no say.
+		storedCC := ParseCCResponseDirectives(ctx.Stored.Data.Header)
+		if r.siep.CanStaleOnError(ctx.Freshness, storedCC, ctx.CCReq) {
 			// RFC 9111 §4.2.4 Serving Stale Responses
 			// RFC 9111 §4.3.3 Handling Validation Responses (5xx errors)
-			StripNoCacheFields(
-				ctx.Stored.Data.Header,
-				ParseCCResponseDirectives(ctx.Stored.Data.Header),
-			)
+			StripNoCacheFields(ctx.Stored.Data.Header, storedCC)
 			SetAgeHeader(ctx.Stored.Data, r.clock, ctx.Freshness.Age)
 			CacheStatusStale.ApplyTo(ctx.Stored.Data.Header)
-			r.l.LogCacheStaleIfError(req, ctx.URLKey, ctx.ToMisc(ccResp))
+			r.l.LogCacheStaleIfError(req, ctx.URLKey, ctx.ToMisc(storedCC))
 			return ctx.Stored.Data, nil
 		}
 	}
@@ -111,9 +109,7 @@ func (r *validationResponseHandler) HandleValidationResponse(
 		return nil, err
 	}
 
-	if !ccRespOnce {
-		ccResp = ParseCCResponseDirectives(resp.Header)
-	}
+	ccResp := ParseCCResponseDirectives(resp.Header)
 	switch {
 	case r.ce.CanStoreResponse(resp, ctx.CCReq, ccResp):
 		// RFC 9111 §4.3.3 Handling Validation Responses (full response)
